@@ -33,6 +33,7 @@ type c14Case struct {
 	// metamorphic variant: change one thing at position Mut and compare the next challenge
 	Mut     int    `json:"mut"`
 	MutKind string `json:"mut_kind"` // label | msg | swap | protocol | drop
+	Noise   uint64 `json:"noise,omitempty"`
 }
 
 func genBytesHex(t *rapid.T, label string, allowEmpty bool) string {
@@ -80,6 +81,7 @@ func genC14(t *rapid.T) c14Case {
 		c.Mut = rapid.IntRange(0, n-1).Draw(t, "mut")
 	}
 	c.MutKind = rapid.SampledFrom([]string{"label", "msg", "swap", "protocol", "drop"}).Draw(t, "mut_kind")
+	c.Noise = noiseSeedFrom(rapid.Uint64().Draw(t, "noise"))
 	return c
 }
 
@@ -146,6 +148,9 @@ func runTranscripts(protocol string, ops []trOp, rec *hx.Rec) (impl, want []stri
 func evalC14(c c14Case, rec *hx.Rec) error {
 	rec.Eval(1)
 	rec.Sample(c)
+	if c.Noise%4 == 1 {
+		runNoise(c.Noise, 2, false)
+	}
 	impl, want, maxPending, err := runTranscripts(c.Protocol, c.Ops, rec)
 	if err != nil {
 		return err
